@@ -247,10 +247,10 @@ func Run(s *kernel.Sim) *World {
 	})
 
 	// schedule
-	horizon := time.Duration(t.Range(10, 240)) * time.Minute
+	horizon := time.Duration(t.Range(40, 240)) * time.Minute
 	cancelAt := horizon
 	earlyCancel := t.Bool(1, 3)
-	quietFor := time.Duration(t.Range(4, 20)) * time.Minute
+	quietFor := time.Duration(t.Range(4, 35)) * time.Minute
 	stopWrites := horizon - quietFor
 	if len(w.Bucket.Script) > 0 && t.Bool(1, 2) {
 		// a fault on one of the last uploads before the quiet phase
@@ -402,6 +402,12 @@ func Run(s *kernel.Sim) *World {
 	return w
 }
 
+// retryBound is the bounded-liveness horizon: the statement sets no figure for
+// how soon a failed upload is retried or how soon the newest backup catches
+// up once writes stop; a quarter of an hour is far beyond the loop's
+// once-a-minute rhythm and only flags a task that has stopped trying.
+const retryBound = 15 * time.Minute
+
 func (w *World) judge(cancelled bool, cancelT time.Duration, loopDone bool, loopDoneT, lastWriteT time.Duration) {
 	s := w.S
 	ups := w.Bucket.Uploads
@@ -454,10 +460,10 @@ func (w *World) judge(cancelled bool, cancelT time.Duration, loopDone bool, loop
 			continue
 		}
 		if i+1 < len(ups) {
-			if gap := ups[i+1].StartT - u.EndT; gap > 2*time.Minute {
+			if gap := ups[i+1].StartT - u.EndT; gap > retryBound {
 				w.fail("retry", "upload #%d failed at t=%v but the next attempt came only %v later", i, u.EndT, gap)
 			}
-		} else if endAll-u.EndT > 2*time.Minute+10*time.Second {
+		} else if endAll-u.EndT > retryBound+10*time.Second {
 			w.fail("retry", "upload #%d failed at t=%v and was not retried by t=%v", i, u.EndT, endAll)
 		}
 		s.Probe("failed-upload-judged")
@@ -479,7 +485,7 @@ func (w *World) judge(cancelled bool, cancelT time.Duration, loopDone bool, loop
 	if cancelled {
 		endT = cancelT
 	}
-	if endT-quietSince > 3*time.Minute+10*time.Second {
+	if endT-quietSince > retryBound+10*time.Second {
 		if lastOK == nil || !bytes.Equal(lastOK.Body, cur) {
 			w.fail("converge", "writes and faults stopped at t=%v but at t=%v the newest successful backup still differs from the current database file", quietSince, endT)
 		} else {
